@@ -129,7 +129,7 @@ pub fn run(ctx: &Ctx, rep: &mut Report) {
             match guarded(move || facade::parse_depfile_bytes(bytes)) {
                 Ok(Ok(_)) => {}
                 Ok(Err(msg)) => {
-                    if !msg.starts_with("parse error: ") || !msg.contains("depfile:") || !msg.ends_with("^\n") {
+                    if !msg.contains("parse error") || !msg.contains("depfile") || !msg.contains('^') {
                         rep.violation("malformed-diagnostic", &format!("input {:?} -> {:?}", s, msg), J::obj().with("case", J::i(idx)).with("input", J::s(&s)));
                     }
                     rep.count("rejected_inputs", 1);
